@@ -4,6 +4,9 @@ for every slice input, of any length, the documents offered to the output are ex
 input -- `rest[..n]` with `n` the size of the first complete value -- in order, without gap or overlap, until the input
 is exhausted or a value is malformed (C03, C02); `split_at` never panics and the loop terminates (C04); every
 deserializer that is offered, on the slice path AND on the reader path, has had `set_max_depth(DEPTH_LIMIT)` applied (C18).
+Reader path (C03): a document is requested only from a buffered reader whose `fill_buf` has just shown remaining input
+(precondition-contract on `rmp_serde::Deserializer::new`), and the loop is left only when `fill_buf` has shown that
+NOTHING is left (loop `ensures br_at_eof(&r)`) -- no trailing byte is dropped, no document is requested at EOF.
 
 Stand-ins with ASSUMED contracts (listed in the evidence): `rmp_serde::Deserializer` (constructors record the bytes
 they were built over; `set_max_depth` records its argument), the trait `crate::Output` with a ghost log of what was
@@ -35,7 +38,17 @@ pub trait ExBufRead: std::io::Read {
 }
 pub assume_specification<R: std::io::Read> [std::io::BufReader::<R>::new] (r: R) -> std::io::BufReader<R>;
 #[verifier::allow(undeclared_external_trait)]
-pub assume_specification<R: ?Sized + std::io::Read> [<std::io::BufReader<R> as std::io::BufRead>::fill_buf] (b: &mut std::io::BufReader<R>) -> (r: std::io::Result<&[u8]>);
+pub assume_specification<R: ?Sized + std::io::Read> [<std::io::BufReader<R> as std::io::BufRead>::fill_buf] (b: &mut std::io::BufReader<R>) -> (r: std::io::Result<&[u8]>)
+    // BufRead's documented contract: an empty buffer after fill_buf means the reader has reached EOF, a non-empty one that input remains
+    ensures r matches Ok(s) ==> (s@.len() == 0) == br_at_eof(final(b));
+// ghost state of a buffered reader: no byte is left (buffer empty and the source at EOF)
+pub uninterp spec fn br_at_eof<R: ?Sized>(b: &std::io::BufReader<R>) -> bool;
+// whether the reader handed to rmp_serde::Deserializer::new still had input when it was handed over
+pub uninterp spec fn rd_has_input<R>(r: &R) -> bool;
+#[verifier::external_body]
+pub broadcast proof fn axiom_rd_has_input<R: ?Sized>(m: &&mut std::io::BufReader<R>)
+    ensures #[trigger] rd_has_input::<&mut std::io::BufReader<R>>(m) == !br_at_eof(&*old(*m)),
+{ }
 #[verifier::allow(undeclared_external_trait)]
 pub assume_specification<R: ?Sized + std::io::Read> [<std::io::BufReader<R> as std::io::BufRead>::consume] (b: &mut std::io::BufReader<R>, amt: usize);
 
@@ -74,6 +87,8 @@ pub mod rmp_serde {
     impl<R: std::io::Read> Deserializer<ReadReader<R>> {
         #[verifier::external_body]
         pub fn new(rd: R) -> (d: Self)
+            // C03 (reader path): a document is requested only from a reader that has input left
+            requires super::rd_has_input(&rd),
             ensures rd_src(&d) == Seq::<u8>::empty(), rd_depth(&d) is None,
         { unimplemented!() }
     }
@@ -185,7 +200,7 @@ TRANSCODE_SPEC = '''ensures
             &&& (r is Err ==> exists|k: int| 0 <= k <= docs.len() && #[trigger] out_log(&output).len() == old_log(output).len() + k)
         },'''
 
-PROLOGUE = '''broadcast use input::axiom_input_of_slice, axiom_de_views;
+PROLOGUE = '''broadcast use input::axiom_input_of_slice, axiom_de_views, axiom_rd_has_input;
     let ghost log0 = out_log(&output);
     let ghost mut whole: Seq<u8> = Seq::empty();
     let ghost mut is_slice = false;'''
@@ -208,6 +223,10 @@ LOOP0_INV = '''invariant
             mp_all_valid(whole, DEPTH_LIMIT as nat) == mp_all_valid(rest@, DEPTH_LIMIT as nat),
         decreases rest@.len(),'''
 
+# C03 (reader path): the loop is left only when fill_buf reported that nothing is left -- no trailing byte is dropped
+LOOP1_INV = '''invariant true,
+        ensures br_at_eof(&r),'''
+
 ITEMS = M.ITEMS + [
     dict(raw=STANDINS),
     dict(src='repo:src/input.rs', kind='enum', name='Input', drop_vis=True, wrap=('    pub', '')),
@@ -217,11 +236,11 @@ ITEMS = M.ITEMS + [
          contract=dict(ret='r', spec='ensures true,', attrs=['#[verifier::exec_allows_no_decreases_clause]', '#[verifier::rlimit(80)]'],
                        prologue=PROLOGUE,
                        rewrites=[dict(find=r'\(\s*next\s*,\s*rest\s*\)\s*=\s*([^;]*);', to=r'let (verus_a, verus_b) = \1; next = verus_a; rest = verus_b;', expand=True)],
-                       loops=[dict(ordinal=0, kind='while', clauses=LOOP0_INV)],
+                       loops=[dict(ordinal=0, kind='while', clauses=LOOP0_INV), dict(ordinal=1, kind='while', clauses=LOOP1_INV)],
                        inserts=[dict(after=r'let\s+mut\s+rest\s*=\s*&\s*\*\s*b\s*;', text=AFTER_REST),
                                 dict(after=r'rest\s*\.\s*split_at\s*\([^;]*;', text=AFTER_SPLIT),
                                 dict(before=r'Ok\(\(\)\)\s*\}\s*$', text=AT_END)],
-                       inserts_all=[dict(after=r'while\s*![^{]*\{', text='broadcast use axiom_de_views;', count=2)])),
+                       inserts_all=[dict(after=r'while\s[^{]*\{', text='broadcast use axiom_de_views, axiom_rd_has_input;', count=2)])),
 ]
 
 CONSTS = []
